@@ -101,7 +101,15 @@ def make_register(cfg):
                     ann["not_a_field"] = int
                 ann[k] = v
             ann["also_not"] = "str"
-        cls = type("AnnReg", (csr.Register,), {"__annotations__": ann}, access=cfg["racc"])
+        base = csr.Register
+        if cfg.get("inherit"):
+            # an annotated register class derived from ANOTHER annotated register class (which is used first): the
+            # derived class's own annotations define its fields
+            base = type("BaseReg", (csr.Register,),
+                        {"__annotations__": {"zz_base": csr.Field(StubAction, SHAPES["u3"](), {"r": "r", "w": "w", "rw": "rw"}[cfg["racc"]])}},
+                        access=cfg["racc"])
+            base()
+        cls = type("AnnReg", (base,), {"__annotations__": ann}, access=cfg["racc"])
         return cls()
     return csr.Register(mk(struct), access=cfg["racc"])
 
@@ -243,6 +251,7 @@ def configs(tier):
     # the same Register object elaborated a second time (the second elaboration is what is checked)
     multi = [c for c in out if len(c["leaves"]) >= 2]
     out += [dict(c, elab_twice=True) for c in multi[::(97 if quick else 23)]]
+    out += [dict(c, inherit=True) for c in out if c.get("annot") and not c.get("elab_twice")][::(29 if quick else 7)]
     return out
 
 
